@@ -394,7 +394,7 @@ class Exec:
         """(set of uninterpreted constant names, contains-UF-application flag) of an expression, memoised on the AST id"""
         memo = s.__dict__.setdefault('_vmemo', {})
         k = e.get_id()
-        if k in memo: return memo[k]
+        if k in memo: return memo[k][:3]
         vs = set(); uf = False; seen = set(); stack = [e]; real = False
         while stack:
             x = stack.pop(); i = x.get_id()
@@ -408,8 +408,8 @@ class Exec:
                 else:
                     if x.decl().kind() == z3.Z3_OP_UNINTERPRETED: uf = True
                     stack.extend(x.children())
-        memo[k] = (vs, uf, real)
-        return memo[k]
+        memo[k] = (vs, uf, real, e)      # the expression is kept alive: z3 reuses AST ids of collected terms
+        return memo[k][:3]
 
     def feasible_relaxed(s, st, cond):
         """real mode: branch feasibility on the cone of influence of cond within the path condition, leaving out conjuncts that mention
